@@ -40,6 +40,17 @@ ASSUMPTIONS = [
     "a Progress violation only when every unfinished probe thread is found inside a lock acquisition of the "
     "library, otherwise a machinery failure",
     "the pty responder answers requests in arrival order (FIFO terminal)",
+    "time (Elapse): a synchronized call may stay inside its body for longer than any timeout the library knows (a long or "
+    "infinite read_tty(), a slow draw_screen(), a user function decorated with lock_tty); in the replay virtual time passes "
+    "only at Elapse steps: every BOUNDED wait for a lock that is not free expires then, unbounded waits keep waiting; the "
+    "specification: whoever waits still waits - the hand-over of the start wrapper happens only when the old lock is free "
+    "(HandOverHeld)",
+    "thread population (Create, model n): a process starts with the threads whose Creator is 0 (possibly ONE); others come "
+    "into existence at any moment of their creator's program, also inside a synchronized body; Kind 'raw' threads "
+    "(_thread.start_new_thread, C extensions) are invisible to threading.active_count()/enumerate(); in the replay the "
+    "`threading` view of a model process (active_count, enumerate, the module) is the model's, because all model processes "
+    "of a world live in one OS process; the real newcomer scenarios (harness/c14_newcomer_worker.py) use real threads and "
+    "no stand-in: the main thread stays inside its call until the newcomer has entered or is found waiting in the library",
     "lock order (LockOrder): the programs are the acquire/release sequences recorded from the real entry points "
     "(lock identity = object; re-entrant re-acquisitions dropped); the law quantifies over pairs (thorough: also 120 "
     "seeded triples) of entry points with every fact that is read under the terminal lock already warm; the same "
@@ -64,6 +75,7 @@ QUICK_MODELS = [
     ("MC_TtyLock_s_dump.cfg", "tty"),
     ("MC_TtyLock_g_dump.cfg", "tty"),
     ("MC_TtyLock_y_dump.cfg", "tty"),
+    ("MC_TtyLock_n_dump.cfg", "tty"),
     ("MC_TtyLock_cell.cfg", "cell"),
 ]
 VARIANTS = {
@@ -71,15 +83,22 @@ VARIANTS = {
     "nohold": "start wrapper swaps the lock without holding the old one",
     "norun": "run wrapper does not install the shared lock",
     "nonreentrant": "RLock -> Lock",
+    "boundedwait": "start wrapper gives up waiting for the old lock after a timeout and swaps anyway",
 }
+# variants that need a particular configuration to manifest: (cfg, VARIANT, what)
+VARIANTS_CFG = [
+    ("MC_TtyLock_var_y.cfg", "noswapq", "no lock swap while queries are disabled"),
+    ("MC_TtyLock_var_n.cfg", "fastpath", "no locking while threading sees one thread and no process was started"),
+]
 ALL_ACTIONS = {
     "DoReadA", "DoAcqA", "DoReadB", "DoAcqB", "DoNest", "DoWrite", "DoRead", "DoRelB", "DoRelA",
     "DoSReadA", "DoSAcqA", "DoSTest", "DoSNew", "DoSCopy", "DoSRel", "DoSSpawn", "DoRunWrap", "DoReply", "DoToggleQ",
+    "DoCreate", "DoElapse",
 }
 
 
 def _pool():
-    return ProcessPoolExecutor(max_workers=5, mp_context=multiprocessing.get_context("spawn"))
+    return ProcessPoolExecutor(max_workers=6, mp_context=multiprocessing.get_context("spawn"))
 
 
 def real_jobs(rep: Report) -> list[dict]:
@@ -234,6 +253,57 @@ def validate_sync(rep: Report, result: dict, selfcheck: bool = True):
     rep.extra["synchronized_set"] = {"members": len(set(names)), "traces": len(names), "seen_waiting_for_the_lock": waited}
 
 
+def validate_newcomer(rep: Report, result: dict, selfcheck: bool = True):
+    """Threads that come into existence while a synchronized call is in progress / that `threading` does not know
+    (TtyLock's Create action on real threads; harness/c14_newcomer_worker.py), judged by Trace_TtyLock."""
+    if not result.get("tty_fd") or result.get("threads_at_start") != 1 or not result.get("scenarios"):
+        raise tlc.MachineryError(f"newcomer worker: no pty / not single-threaded at the start / no scenario: "
+                                 f"{ {k: v for k, v in result.items() if k != 'scenarios'} }")
+    scs = result["scenarios"]
+    for sc in scs:
+        name = f"{sc['kind']}-{sc['when']}"
+        if sc["error"] or not sc["finished"] or not sc["decided"] or sc["visible_before"] != 1:
+            raise tlc.MachineryError(f"newcomer scenario {name}: error={sc['error']!r} finished={sc['finished']} "
+                                     f"decided={sc['decided']!r} threads visible before={sc['visible_before']}")
+    traces = [{k: sc[k] for k in ("ev", "q", "calls", "returned", "stalled")} for sc in scs]
+    extra = []
+    if selfcheck:  # corrupted trace: the second thread's enter moved in front of the main thread's exit
+        bad = copy.deepcopy(traces[0])
+        i = next((k for k, e in enumerate(bad["ev"]) if e["k"] == "exit" and e["t"] == 1), None)
+        j = next((k for k, e in enumerate(bad["ev"]) if e["k"] == "enter" and e["t"] == 2), None)
+        if i is not None and j is not None and j > i:
+            bad["ev"].insert(i, bad["ev"].pop(j))
+            for n, e in enumerate(bad["ev"], start=1):
+                e["seq"] = n
+            extra = [bad]
+    verdicts, st, tr = tlc.validate_traces("Trace_TtyLock", "Trace_TtyLock.cfg", traces + extra, batch=100,
+                                           parallel=1, workers=2, name="c14new", timeout=300)
+    rep.states += st
+    rep.transitions += tr
+    if extra and verdicts[0]["verdict"] == "ok" and not verdicts[-1]["verdict"].startswith("MutualExclusion"):
+        raise tlc.MachineryError(f"Trace_TtyLock accepted a corrupted newcomer trace: {verdicts[-1]}")
+    info = {}
+    for sc, v in zip(scs, verdicts):
+        name = f"{sc['kind']}-{sc['when']}"
+        rep.traces_validated += 1
+        rep.evaluations += sc["calls"]
+        rep.distinct.add(("newcomer", name))
+        info[name] = sc["decided"]
+        if v["verdict"].startswith("malformed"):
+            raise tlc.MachineryError(f"newcomer scenario {name}: {v['verdict']}; events={sc['ev']}")
+        if v["verdict"] != "ok":
+            clause = v["verdict"].split(":")[0]
+            rep.violation(
+                f"real:newcomer:{name}:{clause}",
+                f"a process with ONE thread (no Process started, terminal lock: {sc['lock']}) is inside a lock_tty-synchronized "
+                f"call; a second thread (kind {sc['kind']}: {'threading.Thread' if sc['kind'] == 'threading' else '_thread.start_new_thread'}, "
+                f"created {sc['when']} the call) makes a synchronized call: {v['verdict']} at event {v['at']}; "
+                f"stamps: {[(e['k'], e['t']) for e in sc['ev']]}",
+                {"kind": "newcomer", "only": [name]},
+            )
+    rep.extra["newcomer_threads"] = info
+
+
 def validate_init(rep: Report, obs: list[dict]):
     """Initialisation environments (specs/TtyInit.tla): hand-over wrappers installed whenever a tty was found."""
     traces = [{k: o[k] for k in ("out", "inp", "err", "ctty", "found", "start", "run")} for o in obs]
@@ -356,7 +426,7 @@ def main(rep: Report, replay: dict | None) -> None:
 def _main(rep: Report, replay: dict | None) -> None:
     rep.assumptions += ASSUMPTIONS
     rep.rule = (
-        "spec->code: every edge of the exhaustive quick models (tty lock: q, s, g; cell-size lock) covered by "
+        "spec->code: every edge of the exhaustive quick models (tty lock: q, s, g, y, n; cell-size lock) covered by "
         "walks from the initial states, each walk replayed on fresh module copies; distinct_nontrivial = "
         "distinct model edges replayed + distinct real-run configurations; code->spec: one trace per real run"
     )
@@ -374,6 +444,10 @@ def _main(rep: Report, replay: dict | None) -> None:
             validate_sync(rep, c14_real.collect_sync(p, od), selfcheck=False)
         elif sc.get("kind") == "lockorder":
             check_lock_order(rep, os.path.join(rep.extra.get("repo", "/repo"), "src"), len(sc.get("members", [])) > 2)
+        elif sc.get("kind") == "newcomer":
+            src_ = os.path.join(rep.extra.get("repo", "/repo"), "src")
+            validate_newcomer(rep, c14_real.collect_sync(*c14_real.launch_sync(src_, sc.get("only"), module="harness.c14_newcomer_worker")),
+                              selfcheck=False)
         elif sc.get("kind") == "init":
             validate_init(rep, c14_real.run_init_envs(os.path.join(rep.extra.get("repo", "/repo"), "src")))
         elif sc.get("kind") == "real":
@@ -393,7 +467,8 @@ def _main(rep: Report, replay: dict | None) -> None:
     jobs = real_jobs(rep)
     first = [c14_real.launch(j) for j in jobs[:6]]
     sync_p = c14_real.launch_sync(os.path.join(rep.extra.get("repo", "/repo"), "src"))
-    tail = ThreadPoolExecutor(max_workers=4)
+    new_p = c14_real.launch_sync(os.path.join(rep.extra.get("repo", "/repo"), "src"), module="harness.c14_newcomer_worker")
+    tail = ThreadPoolExecutor(max_workers=5)
     lock_f = tail.submit(check_lock_order, rep, os.path.join(rep.extra.get("repo", "/repo"), "src"), not quick)
     init_f = tail.submit(c14_real.run_init_envs, os.path.join(rep.extra.get("repo", "/repo"), "src"))
 
@@ -407,12 +482,13 @@ def _main(rep: Report, replay: dict | None) -> None:
         vres = tlc.run_many(
             [dict(spec="MC_TtyLock", cfg="MC_TtyLock_var.cfg", workers=1, timeout=300, env={"VARIANT": v})
              for v in VARIANTS]
-            + [dict(spec="MC_TtyLock", cfg="MC_TtyLock_var_y.cfg", workers=1, timeout=300, env={"VARIANT": "noswapq"})],
-            parallel=5)
-        for v, res in zip(list(VARIANTS) + ["noswapq"], vres):
+            + [dict(spec="MC_TtyLock", cfg=c, workers=1, timeout=300, env={"VARIANT": v}) for c, v, _ in VARIANTS_CFG],
+            parallel=4)
+        what = dict(VARIANTS, **{v: w for _, v, w in VARIANTS_CFG})
+        for v, res in zip(list(VARIANTS) + [v for _, v, _ in VARIANTS_CFG], vres):
             rep.add_tlc(res)
             if not res.violated:
-                raise tlc.MachineryError(f"model variant {v!r} ({VARIANTS.get(v, 'no lock swap while queries are disabled')}) satisfies every invariant: "
+                raise tlc.MachineryError(f"model variant {v!r} ({what[v]}) satisfies every invariant: "
                                          f"TtyLock.tla no longer discriminates")
             rep.extra.setdefault("model_variants", {})[v] = f"{res.violated} after {res.distinct} states"
 
@@ -463,9 +539,12 @@ def _main(rep: Report, replay: dict | None) -> None:
         "TLC and every edge replayed); real runs and the simulation sub-graph are samples"
     )
     # the three trace validations are independent TLC runs: run them side by side
-    futs = [tail.submit(validate_sync, rep, c14_real.collect_sync(*sync_p)),
+    futs = [tail.submit(lambda: validate_sync(rep, c14_real.collect_sync(*sync_p, timeout=90))),
             tail.submit(validate_init, rep, init_f.result()),
-            tail.submit(validate_real, rep, traces), lock_f]
+            tail.submit(validate_real, rep, traces), lock_f,
+            # collected inside the task: a worker that hangs (e.g. a lock that is not re-entrant) is a machinery problem
+            # that must not hide the violations the other parts report
+            tail.submit(lambda: validate_newcomer(rep, c14_real.collect_sync(*new_p, timeout=45)))]
     errors = []
     for f in futs:
         try:
